@@ -269,7 +269,24 @@ def inline_call(fd, c, hd, serial):
     single_tail = used and len(valued) == 1 and len(rets) == 1 and rootch and rootch[-1] == valued[0]
     new_elems_for = {}      # node id (Return) -> replacement element list
     decl_nodes = []
-    if single_tail:
+    # `if (c) return A; return B;` without side effects is the conditional expression `c ? A : B`
+    pure_cond = None
+    if used and len(rets) == 2 and len(valued) == 2 and len(rootch) == 2 and F[rootch[0]]["k"] == "If" and rootch[1] in valued and not bindings:
+        cnd, th, el = F[rootch[0]]["ch"]
+        th_s = th
+        if F[th]["k"] == "Compound" and len(F[th]["ch"]) == 1:
+            th_s = F[th]["ch"][0]
+        if F[el]["k"] == "Absent" and th_s in valued and _pure(F, cnd) and _pure(F, F[th_s]["ch"][0]) and _pure(F, F[rootch[1]]["ch"][0]):
+            pure_cond = (cnd, F[th_s]["ch"][0], F[rootch[1]]["ch"][0], th_s, rootch[1])
+    if pure_cond is not None:
+        cnd, ea, eb, ra, rb = pure_cond
+        keep = {k_: v for k_, v in call.items() if k_ in ("l", "t", "ct")}
+        F[c] = {"k": "Cond", "ch": [cnd, ea, eb], "inl": tag}
+        F[c].update(keep)
+        new_elems_for[ra] = []
+        new_elems_for[rb] = []
+        retval_const = {}
+    elif single_tail:
         r = valued[0]
         e = F[r]["ch"][0]
         F[hroot]["ch"] = rootch[:-1]
@@ -327,9 +344,10 @@ def inline_call(fd, c, hd, serial):
         bind_nodes.append(asg)
         bind_elems += [lhs, asg]
     # ---- wrap the statement
-    W = len(F)
-    F.append({"k": "Compound", "ch": decl_nodes + bind_nodes + [hroot, S], "l": F[S].get("l"), "el": F[S].get("el"), "inl": tag, "inlwrap": True})
-    F[SP]["ch"] = [W if x == S else x for x in F[SP]["ch"]]
+    if pure_cond is None:
+        W = len(F)
+        F.append({"k": "Compound", "ch": decl_nodes + bind_nodes + [hroot, S], "l": F[S].get("l"), "el": F[S].get("el"), "inl": tag, "inlwrap": True})
+        F[SP]["ch"] = [W if x == S else x for x in F[SP]["ch"]]
     # ---- CFG
     cfg = fd["cfg"]
     hcfg = hd["cfg"]
